@@ -173,6 +173,7 @@ class Env:
         self.dtype = dtype
         self.loader = loader
         self.values = {}       # clause -> numeric lhs list (model validation)
+        self.rhs_values = {}   # clause -> rhs entries of proved identities (independent high-precision re-check)
         self.notes = []
         self._undo = []
         if mode == 'num':
@@ -297,7 +298,7 @@ class Env:
                 except ValueError:
                     self._record(name, 'failed', f'shape mismatch {la.shape} vs {ra.shape}'); return False
             bad = []
-            vals = []
+            vals = []; rvals = []
             used_z3 = False
             for idx in np.ndindex(la.shape):
                 a, b = la[idx], ra[idx]
@@ -314,7 +315,9 @@ class Env:
                             ok = True; used_z3 = True
                 if not ok: bad.append((idx, a, b))
                 vals.append(a)
+                rvals.append(b)
             self.values[name] = vals
+            self.rhs_values[name] = rvals
             if bad:
                 idx, a, b = bad[0]
                 d = (a - b) if not isinstance(a, Inf) and not isinstance(b, Inf) else None
@@ -604,6 +607,7 @@ def run_symbolic(fn, loader, max_paths=64, z3_timeout=2000, seed=0, witness_trie
         paths.append(dict(prefix=[(str(k)[:80], v) for k, v in taken], cond=[repr(c)[:200] for c in orc.path],
                           clauses=env.clauses, outcome=outcome, error=err, witness=wit,
                           values={k: v for k, v in env.values.items()} if wit else {},
+                          rhs_values={k: v for k, v in env.rhs_values.items()} if wit else {},
                           ctx=ctx, decls=env.decls, implied=orc.implied, unknown_feas=orc.unknown_feas,
                           atoms=[ctx.names[v] for v in range(len(ctx.names)) if ctx.kind[v] != 'sym']))
     return dict(paths=paths, infeasible=n_inf, wall=time.time() - t0)
